@@ -145,13 +145,13 @@ impl Property for C12 {
     fn cases(&self, tier: Tier) -> u64 {
         match tier {
             Tier::Quick => widths(tier) * OFFSETS + 4_000,
-            Tier::Thorough => widths(tier) * OFFSETS + 300_000,
+            Tier::Thorough => widths(tier) * OFFSETS + 15_000_000,
         }
     }
     fn min_nontrivial(&self, tier: Tier) -> u64 {
         match tier {
             Tier::Quick => 2_500,
-            Tier::Thorough => 20_000,
+            Tier::Thorough => 1_000_000,
         }
     }
     fn rule(&self) -> &'static str {
